@@ -1,19 +1,21 @@
 /-!
 # C18 — model of `compiler/meta.rs` (find_undeclared) and of run-time name resolution
 
-Two artefacts over one AST (single-file templates: no include/import/extends/block):
+Two artefacts over one AST (single-file templates: no include/import/extends):
 
-* `findUndeclared` — transcription of `find_undeclared(t, false)` /
-  `AssignmentTracker` / `track_walk` / `track_assign` / `tracker_visit_expr` /
-  `tracker_visit_macro` / `find_macro_closure` of `minijinja/src/compiler/meta.rs`
-  (scope stack `assigned : Vec<HashSet>`, `out : HashSet`; sets are lists here, only
-  membership is ever observed).
+* `findUndeclared` / `findUndeclaredNested` — transcription of `find_undeclared(t, false)` and
+  `find_undeclared(t, true)`: `AssignmentTracker` / `track_walk` / `track_assign` /
+  `tracker_visit_expr` / `tracker_visit_call` / `tracker_visit_macro` / `find_macro_closure` of
+  `minijinja/src/compiler/meta.rs` (scope stack `assigned : Vec<HashSet>`, `out : HashSet`,
+  `nested_out : Option<HashSet<String>>`; sets are lists here, only membership is ever
+  observed; a dotted name `a.b.c` is kept as the pair `("a", ["b", "c"])`).
 * `reads` — reference semantics of NAME RESOLUTION ONLY of the code that
   `compiler/codegen.rs` emits and `vm/context.rs: Context::load` executes: which names are
   asked from the render context (the `ctx` of the root frame).  Values are not modelled; every
-  data-dependent decision (branch taken, number of loop items, number of macro invocations) is
-  supplied by a *choice tree* `Ch` that mirrors the statement structure, so the set of all
-  choice trees covers whatever control flow a render takes.
+  data-dependent decision (branch taken, number of loop items, number of macro invocations,
+  re-entries of recursive loops, `self.block()` calls) is supplied by a *choice tree* `Ch`
+  that mirrors the statement structure, so the set of all choice trees covers whatever control
+  flow a render takes.
 
 Run-time facts the semantics encodes (with their source):
 
@@ -22,15 +24,32 @@ Run-time facts the semantics encodes (with their source):
   `closure_context` of a macro frame.  A frame is modelled as the list of names bound in it.
 * `Context::store` writes into the top frame only, therefore `exec` receives the top frame
   and the frames below separately and returns the new top frame: lower frames cannot change.
-* frames are pushed by `PushWith` (with blocks), `PushLoop` (for loops) and macro calls only;
-  `if`, `autoescape`, `filter`, `set` blocks run in the current frame.
+* frames are pushed by `PushWith` (with blocks), `PushLoop` (for loops), block calls and macro
+  calls only; `if`, `autoescape`, `filter`, `set` blocks run in the current frame.
 * `Stmt::Set`: right-hand side first, then `StoreLocal`; `WithBlock`: `PushWith`, then for each
   pair the expression (in the new frame) and the store; `SetBlock`: body, filter, store;
   `FilterBlock`: body then filter; `AutoEscape`: expression then body.
 * `compile_for_loop`: iterable evaluated outside; with a filter a first loop frame without the
   loop variable binds the target and evaluates the filter per item; then a loop frame with
-  `loop`; `next_loop_item` clears the frame's locals before every item, so every iteration
-  starts from the same frame; the else body runs after `PopLoopFrame`, in the outer frame.
+  `loop`; `next_loop_item` clears the frame's locals (and its macro closure) before every
+  item, so every iteration starts from the same frame; the else body runs after
+  `PopLoopFrame`, in the outer frame, and belongs to the enclosing loop.
+* `{% break %}` / `{% continue %}` (`leave_scopes_of_innermost_loop` + `Jump`): the rest of
+  the iteration is skipped, the with frames opened inside the loop are popped, a set/filter
+  block that is left neither applies its filter nor assigns.  `exec` reports `stopped`, every
+  construct up to the loop iteration passes it on.
+* recursive loops (`recurse_loop!`, `FastRecurse` / `CallFunction` on a `Loop` object): the
+  jump goes to the `PushLoop` of the loop, i.e. a new loop frame (`loop`, targets) is pushed on
+  top of *the frames at the call* and the body runs again (the loop filter is not applied
+  again); only loops that are running in the current context can be re-entered
+  (`Context::is_active_loop`), not from a block (`instructions_id`), not from a macro.  A
+  re-entry is a request of the choice tree, served at the start of the statement that contains
+  the call (expressions bind nothing, so the frames of the statement start bind at most what
+  the frames at the call bind).
+* `{% block name %}`: compiled to separate instructions, rendered by `CallBlock` in a fresh
+  frame on top of the current frames; `self.name()` does the same from anywhere in the
+  template (macros included).  In-place rendering is the `block` statement, `self.name()` is a
+  request like a loop re-entry; a block body cannot re-enter a loop around it.
 * `compile_macro_expression`: at the declaration `Enclose(n)` looks up every `n` in
   `find_macro_closure(m) \ {caller}` (that is the same analysis, run on the macro alone) and
   stores it in the frame's closure — *before* `StoreLocal(name)`.  A call runs the body in a
@@ -38,18 +57,18 @@ Run-time facts the semantics encodes (with their source):
   analysis saw `caller`; arguments are bound back to front, a default is evaluated right
   before its argument is bound.
 * Expressions never bind names.  Expression-level control flow (`and`/`or`, `x if c else y`,
-  chained comparisons, constant folding, the special forms `loop(..)`, `super()`, `self.b()`)
-  can only *skip* look-ups, so an expression is over-approximated by the look-up of every
-  variable leaf (`vars`, in the order `tracker_visit_expr` visits them).
+  chained comparisons, constant folding) can only *skip* look-ups, so an expression is
+  over-approximated by the look-up of every variable leaf (`vars`, in the order
+  `tracker_visit_expr` visits them).  `self.name(..)` and `super(..)` do not look up their
+  callee (`CallType::Block`, the `super` case of `CallFunction`).
 * Errors abort a render: the look-ups of an aborted render are a prefix of the look-ups of
   the run that the same choices describe, so they are covered.
 * Macro bodies run when the macro is called, which may be anywhere later and any number of
   times; the frames a call sees depend only on the declaration (closure names), so the body
   executions are accounted for at the declaration, once per entry of the choice tree.
 
-Not modelled (validated by the oracle of the harness only): recursive loops re-entering their
-body through `loop(..)`, `{% break %}`/`{% continue %}`, blocks/includes/imports, the
-`nested = true` mode of the analysis, debug-mode error reports.
+Not modelled (validated by the oracle of the harness only): includes/imports/extends,
+debug-mode error reports, globals.
 -/
 
 namespace MJ.Meta
@@ -84,7 +103,7 @@ end
 inductive Stmt where
   | emit (e : Expr)
   | raw
-  | forLoop (target iter : Expr) (filter : Option Expr) (body els : List Stmt)
+  | forLoop (target iter : Expr) (filter : Option Expr) (recursive : Bool) (body els : List Stmt)
   | ifCond (c : Expr) (t f : List Stmt)
   | withBlock (assigns : List (Expr × Expr)) (body : List Stmt)
   | set (target e : Expr)
@@ -97,52 +116,88 @@ inductive Stmt where
   | callBlock (callee : Expr) (cargs : List CallArg)
       (args : List String) (defaults : List Expr) (body : List Stmt)
   | doStmt (callee : Expr) (cargs : List CallArg)
+  | brk
+  | cont
+  | block (name : String) (body : List Stmt)
 
-/-! ## variable leaves of an expression, in the order of `tracker_visit_expr` -/
+/-! ## variable leaves of an expression, in the order of `tracker_visit_expr`
+
+A leaf is the variable together with the chain of attribute look-ups directly above it
+(`foo.bar.baz` ↦ `("foo", ["bar", "baz"])`): in nested mode `Expr::GetAttr` follows the chain
+down to the variable and reports the dotted name, otherwise it visits the variable. -/
+
+abbrev Leaf := String × List String
 
 /-- `Call::identify_call() == CallType::Block(_)` (feature `multi_template`): `self.name(..)`
-renders a block (`Instruction::CallBlock`) and looks nothing up; `tracker_visit_call` skips
-the callee in that case. -/
+renders a block (`Instruction::CallBlock`) and looks nothing up. -/
 def isSelfBlockCall : Expr → Bool
   | .getattr (.var id) _ => id == "self"
   | _ => false
 
+/-- `CallType::Function("super")`: `CallFunction("super", ..)` / `FastSuper` render the parent
+block without looking `super` up. -/
+def isSuperCall : Expr → Bool
+  | .var id => id == "super"
+  | _ => false
+
+/-- `tracker_visit_call` skips the callee of `self.name(..)` and `super(..)` -/
+def skipsCallee (e : Expr) : Bool := isSelfBlockCall e || isSuperCall e
+
+/-- a chain of attribute look-ups that ends in a variable -/
+def chainOf : Expr → Option Leaf
+  | .var id => some (id, [])
+  | .getattr e name =>
+      match chainOf e with
+      | some (id, attrs) => some (id, attrs ++ [name])
+      | none => none
+  | _ => none
+
 mutual
-def vars : Expr → List String
-  | .var id => [id]
+def nvars : Expr → List Leaf
+  | .var id => [(id, [])]
   | .const => []
-  | .slice e a b c => vars e ++ (varsOpt a ++ (varsOpt b ++ varsOpt c))
-  | .unary e => vars e
-  | .binop l r => vars l ++ vars r
-  | .compare e ops => vars e ++ varsList ops
-  | .ifExpr c t f => vars c ++ (vars t ++ varsOpt f)
-  | .filter _ e args => varsOpt e ++ varsArgs args
-  | .test _ e args => vars e ++ varsArgs args
-  | .getattr e _ => vars e
-  | .getitem e s => vars e ++ vars s
-  | .call e args => (if isSelfBlockCall e then [] else vars e) ++ varsArgs args
-  | .list items => varsList items
-  | .tuple items => varsList items
-  | .map kvs => varsList kvs
-def varsOpt : Option Expr → List String
+  | .slice e a b c => nvars e ++ (nvarsOpt a ++ (nvarsOpt b ++ nvarsOpt c))
+  | .unary e => nvars e
+  | .binop l r => nvars l ++ nvars r
+  | .compare e ops => nvars e ++ nvarsList ops
+  | .ifExpr c t f => nvars c ++ (nvars t ++ nvarsOpt f)
+  | .filter _ e args => nvarsOpt e ++ nvarsArgs args
+  | .test _ e args => nvars e ++ nvarsArgs args
+  | .getattr e name =>
+      match chainOf (.getattr e name) with
+      | some l => [l]
+      | none => nvars e
+  | .getitem e s => nvars e ++ nvars s
+  | .call e args => (if skipsCallee e then [] else nvars e) ++ nvarsArgs args
+  | .list items => nvarsList items
+  | .tuple items => nvarsList items
+  | .map kvs => nvarsList kvs
+def nvarsOpt : Option Expr → List Leaf
   | none => []
-  | some e => vars e
-def varsList : List Expr → List String
+  | some e => nvars e
+def nvarsList : List Expr → List Leaf
   | [] => []
-  | e :: es => vars e ++ varsList es
-def varsArg : CallArg → List String
-  | .pos e => vars e
-  | .kwarg _ e => vars e
-  | .posSplat e => vars e
-  | .kwargSplat e => vars e
-def varsArgs : List CallArg → List String
+  | e :: es => nvars e ++ nvarsList es
+def nvarsArg : CallArg → List Leaf
+  | .pos e => nvars e
+  | .kwarg _ e => nvars e
+  | .posSplat e => nvars e
+  | .kwargSplat e => nvars e
+def nvarsArgs : List CallArg → List Leaf
   | [] => []
-  | a :: as => varsArg a ++ varsArgs as
+  | a :: as => nvarsArg a ++ nvarsArgs as
 end
 
 /-- `tracker_visit_call` on a `Call { expr, args }` -/
-def varsCall (callee : Expr) (cargs : List CallArg) : List String :=
-  (if isSelfBlockCall callee then [] else vars callee) ++ varsArgs cargs
+def nvarsCall (callee : Expr) (cargs : List CallArg) : List Leaf :=
+  (if skipsCallee callee then [] else nvars callee) ++ nvarsArgs cargs
+
+/-- the variables an expression looks up (`Instruction::Lookup` / `CallFunction`) -/
+def roots (ls : List Leaf) : List String := ls.map Prod.fst
+
+def vars (e : Expr) : List String := roots (nvars e)
+def varsOpt (e : Option Expr) : List String := roots (nvarsOpt e)
+def varsCall (callee : Expr) (cargs : List CallArg) : List String := roots (nvarsCall callee cargs)
 
 /-! ## assignment targets
 
@@ -169,10 +224,13 @@ end
 /-! ## the analysis (`meta.rs`) -/
 
 structure St where
-  /-- `out: HashSet<&str>` -/
+  /-- `out: HashSet<&str>` (the result when `nested_out` is `None`; not the result, and not
+  modelled, otherwise) -/
   out : List String
   /-- `assigned: Vec<HashSet<&str>>`, head = `last()` -/
   assigned : List (List String)
+  /-- `nested_out: Option<HashSet<String>>` -/
+  nested : Option (List Leaf) := none
   /-- a `last_mut().unwrap()` on an empty stack happened (Rust would panic) -/
   bad : Bool := false
 
@@ -187,15 +245,20 @@ def St.push (st : St) : St := { st with assigned := [] :: st.assigned }
 
 def St.pop (st : St) : St := { st with assigned := st.assigned.tail }
 
-/-- `Expr::Var` case of `tracker_visit_expr` with `nested_out = None` -/
-def visitVar (st : St) (x : String) : St :=
-  if st.isAssigned x then st else ({ st with out := x :: st.out }).assign x
+/-- `Expr::Var` / `Expr::GetAttr` cases of `tracker_visit_expr`: an assigned variable is
+skipped; otherwise, without nested tracking, it is reported and considered assigned from now
+on; with nested tracking the (dotted) name is recorded and nothing is assigned. -/
+def visitLeaf (st : St) (l : Leaf) : St :=
+  if st.isAssigned l.1 then st
+  else match st.nested with
+    | none => ({ st with out := l.1 :: st.out }).assign l.1
+    | some n => { st with nested := some (l :: n) }
 
-def visitVars (st : St) (xs : List String) : St := xs.foldl visitVar st
+def visitLeaves (st : St) (ls : List Leaf) : St := ls.foldl visitLeaf st
 
-def visitExpr (st : St) (e : Expr) : St := visitVars st (vars e)
+def visitExpr (st : St) (e : Expr) : St := visitLeaves st (nvars e)
 
-def visitOpt (st : St) (e : Option Expr) : St := visitVars st (varsOpt e)
+def visitOpt (st : St) (e : Option Expr) : St := visitLeaves st (nvarsOpt e)
 
 def trackAtom (st : St) : TAtom → St
   | .name x => st.assign x
@@ -219,7 +282,7 @@ mutual
 def walk (st : St) : Stmt → St
   | .emit e => visitExpr st e
   | .raw => st
-  | .forLoop target iter filter body els =>
+  | .forLoop target iter filter _ body els =>
       let st := st.push
       let st := visitExpr st iter
       let st := trackAssign st target
@@ -271,13 +334,19 @@ def walk (st : St) : Stmt → St
       let st := walkList st body
       st.pop
   | .callBlock callee cargs args defaults body =>
-      let st := visitVars st (varsCall callee cargs)
+      let st := visitLeaves st (nvarsCall callee cargs)
       let st := st.push
       let st := st.assign "caller"
       let st := macroArgs st args.reverse defaults.reverse
       let st := walkList st body
       st.pop
-  | .doStmt callee cargs => visitVars st (varsCall callee cargs)
+  | .doStmt callee cargs => visitLeaves st (nvarsCall callee cargs)
+  | .brk => st
+  | .cont => st
+  | .block _ body =>
+      -- `mem::replace(&mut state.assigned, vec![Default::default()])` … restore
+      let inner := walkList { st with assigned := [[]] } body
+      { inner with assigned := st.assigned }
 def walkList (st : St) : List Stmt → St
   | [] => st
   | s :: ss => walkList (walk st s) ss
@@ -286,11 +355,17 @@ end
 /-- `AssignmentTracker { out: {}, nested_out: None, assigned: vec![{}] }` -/
 def St.init : St := { out := [], assigned := [[]] }
 
+/-- `AssignmentTracker { out: {}, nested_out: Some({}), assigned: vec![{}] }` -/
+def St.initNested : St := { out := [], assigned := [[]], nested := some [] }
+
 /-- `find_undeclared(&Stmt::Template { children }, false)` -/
 def findUndeclared (t : List Stmt) : List String := (walkList St.init t).out
 
+/-- `find_undeclared(&Stmt::Template { children }, true)`; `(a, [b, c])` stands for `a.b.c` -/
+def findUndeclaredNested (t : List Stmt) : List Leaf := ((walkList St.initNested t).nested).getD []
+
 /-- `find_macro_closure(m)`: `tracker_visit_macro(m, state, declare_caller = false)` on a
-fresh tracker -/
+fresh tracker (never nested) -/
 def macroClosureSt (args : List String) (defaults : List Expr) (body : List Stmt) : St :=
   walkList (macroArgs St.init args.reverse defaults.reverse) body
 
@@ -318,19 +393,31 @@ def lookups (top : Frame) (below : List Frame) (xs : List String) : List String 
   xs.filter (fun x => !bound top below x)
 
 /-- choice tree: `n` = the decision taken at this statement, `subs` = choices for the
-executions of sub-bodies -/
+executions of sub-bodies, `reqs` = re-entries (recursive loop bodies, `self.block()` calls)
+that happen while this statement runs: request `r` re-enters target number `r.n` with the
+choices `r.sub0` -/
 inductive Ch where
-  | mk (n : Nat) (subs : List (List Ch))
+  | mk (n : Nat) (subs : List (List Ch)) (reqs : List Ch)
 
 def Ch.n : Ch → Nat
-  | .mk n _ => n
+  | .mk n _ _ => n
 
 def Ch.subs : Ch → List (List Ch)
-  | .mk _ s => s
+  | .mk _ s _ => s
+
+def Ch.reqs : Ch → List Ch
+  | .mk _ _ r => r
 
 def Ch.sub0 (c : Ch) : List Ch := c.subs.headD []
 
-def Ch.default : Ch := .mk 0 []
+def Ch.default : Ch := .mk 0 [] []
+
+/-- result of running a piece of code: the new top frame, the context keys asked, and whether
+a `break`/`continue` is on its way to the enclosing loop -/
+structure Res where
+  top : Frame
+  reads : List String
+  stopped : Bool := false
 
 /-- `compile_assignment`: stores and the look-up of `set ns.attr` -/
 def bindAtoms (top : Frame) (below : List Frame) : List TAtom → Frame × List String
@@ -362,86 +449,162 @@ def bindArgs (top : Frame) (below : List Frame) : List String → List Expr → 
 def macroFrame (args : List String) (defaults : List Expr) (body : List Stmt) : Frame :=
   (if callerRef args defaults body then ["caller"] else []) ++ closureNames args defaults body
 
+/-- the recursive loops around the current statement that are running in this context,
+innermost first: targets and body -/
+abbrev RC := List (List TAtom × List Stmt)
+
+/-- the bodies of the blocks of the template (`state.blocks`) -/
+abbrev BT := List (List Stmt)
+
+/-- serves the re-entry requests of a statement: look-ups they perform -/
+abbrev Reenter := RC → BT → Frame → List Frame → List Ch → List String
+
 mutual
-/-- look-ups of one statement, started with top frame `top` above `below`;
-returns the new top frame and the context keys asked -/
-def exec (top : Frame) (below : List Frame) (c : Ch) : Stmt → Frame × List String
-  | .emit e => (top, lookups top below (vars e))
-  | .raw => (top, [])
-  | .forLoop target iter filter body els =>
+/-- look-ups of one statement, started with top frame `top` above `below` -/
+def exec (K : Reenter) (rc : RC) (bt : BT) (top : Frame) (below : List Frame) (c : Ch) :
+    Stmt → Res
+  | .emit e => ⟨top, lookups top below (vars e), false⟩
+  | .raw => ⟨top, [], false⟩
+  | .forLoop target iter filter recursive body els =>
       let r0 := lookups top below (vars iter)
       if c.n = 0 then
-        -- nothing to iterate: else body in the outer frame
-        let r := execList top below c.sub0 els
-        (r.1, r0 ++ r.2)
+        -- nothing to iterate: else body in the outer frame (part of the enclosing loop)
+        let r := execList K rc bt top below c.sub0 els
+        ⟨r.top, r0 ++ r.reads, r.stopped⟩
       else
         -- filter pass: frame without `loop`, target bound
         let ft := bindAtoms [] (top :: below) (targetAtoms target)
         let rf := ft.2 ++ lookups ft.1 (top :: below) (varsOpt filter)
         if c.n = 1 then
           -- every item filtered out: else body
-          let r := execList top below c.sub0 els
-          (r.1, r0 ++ (rf ++ r.2))
+          let r := execList K rc bt top below c.sub0 els
+          ⟨r.top, r0 ++ (rf ++ r.reads), r.stopped⟩
         else
-          -- one entry of `subs` per iteration; each starts from the cleared loop frame
+          -- one entry of `subs` per iteration; each starts from the cleared loop frame; a
+          -- `break`/`continue` ends the iteration
           let it := bindAtoms ["loop"] (top :: below) (targetAtoms target)
-          let rb := c.subs.flatMap (fun kid => (execList it.1 (top :: below) kid body).2)
-          (top, r0 ++ (rf ++ (it.2 ++ rb)))
+          let rc' := if recursive then (targetAtoms target, body) :: rc else rc
+          let rb := c.subs.flatMap (fun kid =>
+            (execList K rc' bt it.1 (top :: below) kid body).reads)
+          ⟨top, r0 ++ (rf ++ (it.2 ++ rb)), false⟩
   | .ifCond e t f =>
       let r0 := lookups top below (vars e)
       if c.n = 0 then
-        let r := execList top below c.sub0 f
-        (r.1, r0 ++ r.2)
+        let r := execList K rc bt top below c.sub0 f
+        ⟨r.top, r0 ++ r.reads, r.stopped⟩
       else
-        let r := execList top below c.sub0 t
-        (r.1, r0 ++ r.2)
+        let r := execList K rc bt top below c.sub0 t
+        ⟨r.top, r0 ++ r.reads, r.stopped⟩
   | .withBlock assigns body =>
       let w := bindWith [] (top :: below) assigns
-      let r := execList w.1 (top :: below) c.sub0 body
-      (top, w.2 ++ r.2)
+      let r := execList K rc bt w.1 (top :: below) c.sub0 body
+      ⟨top, w.2 ++ r.reads, r.stopped⟩
   | .set target e =>
       let r0 := lookups top below (vars e)
       let r := bindAtoms top below (targetAtoms target)
-      (r.1, r0 ++ r.2)
+      ⟨r.1, r0 ++ r.2, false⟩
   | .autoEscape e body =>
       let r0 := lookups top below (vars e)
-      let r := execList top below c.sub0 body
-      (r.1, r0 ++ r.2)
+      let r := execList K rc bt top below c.sub0 body
+      ⟨r.top, r0 ++ r.reads, r.stopped⟩
   | .filterBlock filter body =>
-      let r := execList top below c.sub0 body
-      (r.1, r.2 ++ lookups r.1 below (vars filter))
+      let r := execList K rc bt top below c.sub0 body
+      if r.stopped then r
+      else ⟨r.top, r.reads ++ lookups r.top below (vars filter), false⟩
   | .setBlock target filter body =>
-      let r := execList top below c.sub0 body
-      let rf := lookups r.1 below (varsOpt filter)
-      let r2 := bindAtoms r.1 below (targetAtoms target)
-      (r2.1, r.2 ++ (rf ++ r2.2))
+      let r := execList K rc bt top below c.sub0 body
+      if r.stopped then r
+      else
+        let rf := lookups r.top below (varsOpt filter)
+        let r2 := bindAtoms r.top below (targetAtoms target)
+        ⟨r2.1, r.reads ++ (rf ++ r2.2), false⟩
   | .macro name args defaults body =>
       -- Enclose(n) for every closure name, then BuildMacro, StoreLocal(name)
       let rd := lookups top below (closureNames args defaults body)
-      -- body executions (calls), each in [closure frame, base frame]
+      -- body executions (calls), each in [closure frame, base frame]; no loop of the caller
+      -- is running in that context
       let rb := c.subs.flatMap (fun kid =>
         let a := bindArgs (macroFrame args defaults body) [[]] args.reverse defaults.reverse
-        a.2 ++ (execList a.1 [[]] kid body).2)
-      (name :: top, rd ++ rb)
+        a.2 ++ (execList K [] bt a.1 [[]] kid body).reads)
+      ⟨name :: top, rd ++ rb, false⟩
   | .callBlock callee cargs args defaults body =>
       let r0 := lookups top below (varsCall callee cargs)
       let rd := lookups top below (closureNames args defaults body)
       let rb := c.subs.flatMap (fun kid =>
         let a := bindArgs (macroFrame args defaults body) [[]] args.reverse defaults.reverse
-        a.2 ++ (execList a.1 [[]] kid body).2)
-      (top, r0 ++ (rd ++ rb))
-  | .doStmt callee cargs => (top, lookups top below (varsCall callee cargs))
-def execList (top : Frame) (below : List Frame) : List Ch → List Stmt → Frame × List String
-  | _, [] => (top, [])
+        a.2 ++ (execList K [] bt a.1 [[]] kid body).reads)
+      ⟨top, r0 ++ (rd ++ rb), false⟩
+  | .doStmt callee cargs => ⟨top, lookups top below (varsCall callee cargs), false⟩
+  | .brk => ⟨top, [], true⟩
+  | .cont => ⟨top, [], true⟩
+  | .block _ body =>
+      -- CallBlock: fresh frame on top of the current ones, separate instructions
+      let r := execList K [] bt [] (top :: below) c.sub0 body
+      ⟨top, r.reads, false⟩
+def execList (K : Reenter) (rc : RC) (bt : BT) (top : Frame) (below : List Frame) :
+    List Ch → List Stmt → Res
+  | _, [] => ⟨top, [], false⟩
   | cs, s :: ss =>
-      let r1 := exec top below (cs.headD Ch.default) s
-      let r2 := execList r1.1 below cs.tail ss
-      (r2.1, r1.2 ++ r2.2)
+      let c := cs.headD Ch.default
+      -- re-entries that happen while `s` runs, with the frames of its start
+      let rq := K rc bt top below c.reqs
+      let r1 := exec K rc bt top below c s
+      if r1.stopped then ⟨r1.top, rq ++ r1.reads, true⟩
+      else
+        let r2 := execList K rc bt r1.top below cs.tail ss
+        ⟨r2.top, rq ++ (r1.reads ++ r2.reads), r2.stopped⟩
 end
 
-/-- context keys a render of template `t` asks for under the choices `cs`; the root frame has
-no locals and the render context as `ctx` -/
-def reads (t : List Stmt) (cs : List Ch) : List String := (execList [] [] cs t).2
+/-- one re-entry request: targets `0 … rc.length-1` are the running recursive loops (a new
+loop frame on top of the current frames, then the body; the loops inside the re-entered one
+are not running in the new activation), the following targets are the blocks of the template
+(`self.name()`: fresh frame, no loop can be re-entered from there) -/
+def serve (K : Reenter) (rc : RC) (bt : BT) (top : Frame) (below : List Frame) (r : Ch) :
+    List String :=
+  if r.n < rc.length then
+    match rc.drop r.n with
+    | (atoms, body) :: rest =>
+        let it := bindAtoms ["loop"] (top :: below) atoms
+        it.2 ++ (execList K ((atoms, body) :: rest) bt it.1 (top :: below) r.sub0 body).reads
+    | [] => []
+  else
+    match bt[r.n - rc.length]? with
+    | some body => (execList K [] bt [] (top :: below) r.sub0 body).reads
+    | none => []
+
+/-- re-entries nested at most `d` deep -/
+def reenter : Nat → Reenter
+  | 0 => fun _ _ _ _ _ => []
+  | d + 1 => fun rc bt top below reqs =>
+      reqs.flatMap (serve (reenter d) rc bt top below)
+
+mutual
+/-- the block table of a template -/
+def blockBodies : Stmt → BT
+  | .emit _ => []
+  | .raw => []
+  | .forLoop _ _ _ _ body els => blockBodiesL body ++ blockBodiesL els
+  | .ifCond _ t f => blockBodiesL t ++ blockBodiesL f
+  | .withBlock _ body => blockBodiesL body
+  | .set _ _ => []
+  | .setBlock _ _ body => blockBodiesL body
+  | .autoEscape _ body => blockBodiesL body
+  | .filterBlock _ body => blockBodiesL body
+  | .macro _ _ _ body => blockBodiesL body
+  | .callBlock _ _ _ _ body => blockBodiesL body
+  | .doStmt _ _ => []
+  | .brk => []
+  | .cont => []
+  | .block _ body => body :: blockBodiesL body
+def blockBodiesL : List Stmt → BT
+  | [] => []
+  | s :: ss => blockBodies s ++ blockBodiesL ss
+end
+
+/-- context keys a render of template `t` asks for under the choices `cs`, re-entries nested
+at most `d` deep; the root frame has no locals and the render context as `ctx` -/
+def reads (t : List Stmt) (cs : List Ch) (d : Nat) : List String :=
+  (execList (reenter d) [] (blockBodiesL t) [] [] cs t).reads
 
 /-! ## the exception set of the known finding: macros that mention their own name -/
 
@@ -451,7 +614,7 @@ mutual
 def selfRefs : Stmt → List String
   | .emit _ => []
   | .raw => []
-  | .forLoop _ _ _ body els => selfRefsL body ++ selfRefsL els
+  | .forLoop _ _ _ _ body els => selfRefsL body ++ selfRefsL els
   | .ifCond _ t f => selfRefsL t ++ selfRefsL f
   | .withBlock _ body => selfRefsL body
   | .set _ _ => []
@@ -462,6 +625,9 @@ def selfRefs : Stmt → List String
       (if (closureNames args defaults body).contains name then [name] else []) ++ selfRefsL body
   | .callBlock _ _ _ _ body => selfRefsL body
   | .doStmt _ _ => []
+  | .brk => []
+  | .cont => []
+  | .block _ body => selfRefsL body
 def selfRefsL : List Stmt → List String
   | [] => []
   | s :: ss => selfRefs s ++ selfRefsL ss
@@ -472,7 +638,7 @@ mutual
 def noMacro : Stmt → Bool
   | .emit _ => true
   | .raw => true
-  | .forLoop _ _ _ body els => noMacroL body && noMacroL els
+  | .forLoop _ _ _ _ body els => noMacroL body && noMacroL els
   | .ifCond _ t f => noMacroL t && noMacroL f
   | .withBlock _ body => noMacroL body
   | .set _ _ => true
@@ -482,6 +648,9 @@ def noMacro : Stmt → Bool
   | .macro _ _ _ _ => false
   | .callBlock _ _ _ _ _ => false
   | .doStmt _ _ => true
+  | .brk => true
+  | .cont => true
+  | .block _ body => noMacroL body
 def noMacroL : List Stmt → Bool
   | [] => true
   | s :: ss => noMacro s && noMacroL ss
